@@ -92,7 +92,8 @@ def attribute(G, t, c, glob_only: set, match_only: set, raw_results: list[str], 
         cs = u.split('/')
         return any(os.path.islink(full('/'.join(cs[:j]))) and os.path.isdir(full('/'.join(cs[:j]))) for j in range(1, len(cs)))
     long = bool(c.flags & G.GLOBSTARLONG)
-    mixed_stars = long and any(('**' in ss and '***' in ss) for ss in segs)
+    mixed_stars = long and (any(('**' in ss and '***' in ss) for ss in segs) or
+                            (matchbase and bool(c.flags & G.FOLLOW) and any('**' in ss for ss in segs)))
     other_magic = any(s not in ('**', '***') and G.is_magic(s, flags=c.flags) for ss in segs for s in ss) or \
         (not long and any('***' in ss for ss in segs))
     def dot_segment():
@@ -131,6 +132,8 @@ def attribute(G, t, c, glob_only: set, match_only: set, raw_results: list[str], 
             ids.add('KF-D7')
         elif linkdir(u) and mixed_stars:
             ids.add('KF-G7')                       # `**/***`: glob keeps the later star, the regex the earlier one
+        elif (nstars >= 2 or (matchbase and nstars >= 1)) and globstar and any(k == 'link' for _, k, _ in t.desc):
+            ids.add('KF-G3')                       # second group lstat-ed under the wrong base: may hit an unrelated link
         elif linkdir(u) and nstars >= 1 and globstar and (nstars >= 2 or other_magic):
             ids.add('KF-G8')                       # only the first regex decomposition is link-tested
         else:
@@ -150,7 +153,7 @@ def attribute(G, t, c, glob_only: set, match_only: set, raw_results: list[str], 
             ids.add('KF-G5')                       # a last segment that can match empty: `dir/*(a)` accepts `dir`
         elif c.flags & G.NODIR and u.endswith('\\'):
             ids.add('KF-D16')
-        elif matchbase and star_last and comps[-1].startswith('.') and not c.flags & G.DOTGLOB:
+        elif matchbase and star_last and any(k.startswith('.') for k in comps) and not c.flags & G.DOTGLOB:
             ids.add('KF-D6')
         elif has_linkdir and mixed_stars:
             ids.add('KF-G7')
